@@ -4,7 +4,7 @@
    are satisfiable (C12_eval); that premise cannot be dropped (C12_eval_needs_sat).  That the children of a real
    SolverComposite are such groups (pairwise variable-disjoint, together equivalent to what was added) is checked as an
    invariant after every step of random histories, and every answer is compared with enumeration (testing). *)
-Require Import CV.Model.PyPrelude CV.Model.Ast CV.Model.Frontend CV.Proofs.CompositeSound.
+Require Import CV.Model.PyPrelude CV.Model.Ast CV.Model.Frontend CV.Proofs.CompositeSound CV.Proofs.SplitComposite.
 From Coq Require Import ZArith Bool List.
 Import ListNotations.
 
@@ -28,3 +28,15 @@ Theorem C12_eval_needs_sat :
     ~ (exists rho, models rho (rel ++ other) = true /\ eval rho e = v).
 Proof. exact composite_eval_needs_sat. Qed.
 Print Assumptions C12_eval_needs_sat.
+
+(* the groups that the model of split() (C15) produces are pairwise variable-disjoint, so the principle applies to them *)
+Theorem C12_split_independent : forall l,
+  independent (map (group_constraints (flatten_and l)) (fst (split_constraints l))).
+Proof. exact split_independent. Qed.
+Print Assumptions C12_split_independent.
+
+Theorem C12_split_sat : forall l,
+  let gs := map (group_constraints (flatten_and l)) (fst (split_constraints l)) in
+  (exists rho, models rho (concat gs) = true) <-> (forall g, In g gs -> exists rho, models rho g = true).
+Proof. exact split_sat_iff. Qed.
+Print Assumptions C12_split_sat.
